@@ -336,9 +336,14 @@ def emit_c(ctx, cases):
         # index of each observed key in the list of model keys (Advance) / code 999 if absent
         idx = [c["want_keys"].index(k) if k in c["want_keys"] else 999 for k in c["keys"]]
         rows.append(lst(natlit(i) for i in idx))
+    # which variant of the key discipline does the tree implement?  (Advance = property holds;
+    # Stale = C20_stale_key_refuted applies, reported by oracle_c as the known finding F7)
+    stale = all(c["keys"] == c["stale_keys"] and c["iterations"] > 1 for c in cases)
+    ctx.cov["batch_key_variant"] = "Stale" if stale else "Advance"
+    pred = "agrees_keys_stale" if stale else "agrees_keys"
     txt = HEADER + f"""
 Definition cases : list (list nat) := {lst(rows)}.
-Lemma shard_ok : forallb agrees_keys cases = true.
+Lemma shard_ok : forallb {pred} cases = true.
 Proof. vm_compute. reflexivity. Qed.
 """
     return ctx.new_shard(txt, "cases_C")
